@@ -388,6 +388,10 @@ impl ActorCell {
         while let Some(actor) = pending.pop() {
             // We don't need to notify of exit if we're already stopping or stopped.
             if actor.get_status() < ActorStatus::Stopping {
+                #[cfg(feature = "verif")]
+                if actor.verif_ports_open().1 {
+                    crate::verif::note(format!("treekill {}", actor.get_id().pid()));
+                }
                 actor.kill();
             }
 
